@@ -46,6 +46,21 @@ fn main() {
                 std::fs::write(p, serde_json::to_string_pretty(&serde_json::json!({"stats": rec.stats_json(), "samples": rec.samples})).unwrap()).unwrap();
             }
         }
+        "fn" => {
+            let what = get("what", "steps");
+            let n: usize = get("n", "1000").parse().unwrap();
+            let mut o = fndrv::Out::new(&out);
+            match what.as_str() {
+                "steps" => fndrv::steps(seed, n, &mut o),
+                "deltas" => fndrv::deltas(seed, n, &mut o),
+                "ticks" => fndrv::ticks(seed, get("stride", "64").parse().unwrap(), n, get("lo", "-443636").parse().unwrap(), get("hi", "443636").parse().unwrap(), &mut o),
+                _ => panic!("unknown fn driver {what}"),
+            }
+            eprintln!("{}", serde_json::to_string(&o.stats()["stats"]).unwrap());
+            if let Some(p) = m.get("stats") {
+                std::fs::write(p, serde_json::to_string_pretty(&o.stats()).unwrap()).unwrap();
+            }
+        }
         _ => {
             eprintln!("usage: wpharness <slots|hist> [--seed N] [--out FILE] ...");
             std::process::exit(2);
